@@ -142,14 +142,16 @@ func gposStr(S gpos, s string) gpos {
 
 // WriterEmpty: nothing written, nothing deferred (exported for the contracts of packages compiler and debug).
 func WriterEmpty(cw *CodeWriter) bool {
-	return len(cw.pendings) == 0 && eq(cw.Builder, strings.Builder{}) && cw.lastByte == 0 && !cw.lastInt
+	return len(cw.pendings) == 0 && eq(cw.Builder, strings.Builder{}) && cw.lastByte == 0 && !cw.lastInt && cw.prevByte == 0
 }
 
 // fuse: token-fusion automaton over the write history. A write that begins with '+' or '-' directly after a byte equal
 // to it would fuse two tokens into another one (`--`, `++`) -- inside one write the characters belong to one token --,
-// and a dot written directly after an integer literal would be taken for its fraction point (`5.x`).
+// a dot written directly after an integer literal would be taken for its fraction point (`5.x`), and a minus sign written
+// directly after `<!` starts an HTML-like comment (`a<!--b`, ECMA-262 B.1.1).
 type fuseState struct {
 	last   byte
+	prev   byte // the byte before last
 	bad    bool
 	intRun bool // the last write consisted of decimal digits only (an integer literal)
 }
@@ -159,21 +161,28 @@ func allDigits(s string) bool {
 	return len(s) > 0 && forall(0, len(s), func(k int) bool { return '0' <= s[k] && s[k] <= '9' })
 }
 
+func prevOf(last byte, s string) byte {
+	if len(s) >= 2 {
+		return s[len(s)-2]
+	}
+	return last
+}
+
 func fuseInit() fuseState { return fuseState{} }
 func fuseByte(S fuseState, c byte) fuseState {
-	return fuseState{last: c, bad: S.bad || (S.last == c && (c == '+' || c == '-')) || (S.intRun && c == '.'), intRun: '0' <= c && c <= '9'}
+	return fuseState{last: c, prev: S.last, bad: S.bad || (S.last == c && (c == '+' || c == '-')) || (S.intRun && c == '.') || (S.prev == '<' && S.last == '!' && c == '-'), intRun: '0' <= c && c <= '9'}
 }
 func fuseStr(S fuseState, s string) fuseState {
 	if len(s) == 0 {
 		return S
 	}
-	return fuseState{last: s[len(s)-1], bad: S.bad || (S.last == s[0] && (s[0] == '+' || s[0] == '-')) || (S.intRun && s[0] == '.'), intRun: allDigits(s)}
+	return fuseState{last: s[len(s)-1], prev: prevOf(S.last, s), bad: S.bad || (S.last == s[0] && (s[0] == '+' || s[0] == '-')) || (S.intRun && s[0] == '.') || (S.prev == '<' && S.last == '!' && s[0] == '-'), intRun: allDigits(s)}
 }
 
 // NoFusion: nothing written so far fuses adjacent sign tokens, and the writer knows the last byte it wrote.
 func NoFusion(cw *CodeWriter) bool {
 	return !foldH(fuseByte, fuseStr, fuseInit(), built(cw.Builder)).bad && cw.lastByte == foldH(fuseByte, fuseStr, fuseInit(), built(cw.Builder)).last &&
-		cw.lastInt == foldH(fuseByte, fuseStr, fuseInit(), built(cw.Builder)).intRun
+		cw.lastInt == foldH(fuseByte, fuseStr, fuseInit(), built(cw.Builder)).intRun && cw.prevByte == foldH(fuseByte, fuseStr, fuseInit(), built(cw.Builder)).prev
 }
 
 // J: the source mapper's cursor is the generated position of everything written so far.
@@ -192,7 +201,7 @@ func cwInv(cw *CodeWriter) bool {
 // mapper's state. Options (PrettyPrint, IndentString, WriteSemicolons, the Mapper pointer) and the tree are not in it.
 //@ group cwFrame
 //@   requires [cw] cw != nil && cwInv(cw) && J(cw) && NoFusion(cw)
-//@   modifies cw.Builder, cw.pendings, cw.IndentLevel, cw.lastByte, cw.lastInt, cw.semiOmitted, cw.deferred
+//@   modifies cw.Builder, cw.pendings, cw.IndentLevel, cw.lastByte, cw.prevByte, cw.lastInt, cw.semiOmitted, cw.deferred
 //@   modifies cw.Mapper.generatedLine, cw.Mapper.generatedColumn, cw.Mapper.mappings, cw.Mapper.names, cw.Mapper.nameIndex[*]
 //@   ensures [cwinv@C06,C08] cwInv(cw)
 //@   ensures [J@C08] J(cw)
@@ -223,9 +232,9 @@ func here(cw *CodeWriter) gpos {
 
 // emit = layout text and comments: append to the buffer and advance the mapper over the same text; never a mapping.
 //@ func (cw *CodeWriter) emit(s)
-//@   props C08 C06 C15 C11
+//@   props C08 C06 C15 C11 C01 C03 C14
 //@   use cwFrame
-//@   ensures [mechanism@C08,C14] fullSeq(evCall("(*CodeWriter).write")) && callArg[string]("(*CodeWriter).write", 0, 1) == s && !callArg[bool]("(*CodeWriter).write", 0, 2)
+//@   ensures [mechanism@C08,C14,C06,C15,C03,C01] fullSeq(evCall("(*CodeWriter).write")) && callArg[string]("(*CodeWriter).write", 0, 1) == s && !callArg[bool]("(*CodeWriter).write", 0, 2)
 //@   ensures [pendings] eq(cw.pendings, old(cw.pendings)) && cw.IndentLevel == old(cw.IndentLevel)
 //@   ensures [no-mapping@C08] cw.Mapper == nil || sourcemap.NumMappings(cw.Mapper) == old(sourcemap.NumMappings(cw.Mapper))
 //@   ensures [request-kept@C08] cw.deferred == old(cw.deferred)
@@ -235,9 +244,9 @@ func here(cw *CodeWriter) gpos {
 // write = a separating space if needed, then (for a token) the requested mapping, then the text; the mapper advances
 // over the same text. The mapping therefore lies exactly at the first character of the token.
 //@ func (cw *CodeWriter) write(s, isToken)
-//@   props C08 C06 C15 C11 C14
+//@   props C08 C06 C15 C11 C14 C01 C03
 //@   use cwFrame
-//@   ensures [mechanism@C08,C14] fullSeq(evOpt(len(s) > 0 && isToken, evCall("(*CodeWriter).restoreSemi")), evOpt(len(s) > 0, evCall("(*CodeWriter).separateSigns")), evOpt(len(s) > 0 && isToken, evCall("(*CodeWriter).commitMapping")), evOpt(len(s) > 0, evCall("isDigits")), evOpt(len(s) > 0 && cw.Mapper != nil, evCall("(*SourceMapper).AdvanceString"))) && implies(len(s) > 0 && isToken, callArg[byte]("(*CodeWriter).restoreSemi", 0, 1) == s[0]) && implies(len(s) > 0 && cw.Mapper != nil, callArg[string]("(*SourceMapper).AdvanceString", 0, 1) == s)
+//@   ensures [mechanism@C08,C14,C06,C15,C03,C01] fullSeq(evOpt(len(s) > 0 && isToken, evCall("(*CodeWriter).restoreSemi")), evOpt(len(s) > 0, evCall("(*CodeWriter).separateSigns")), evOpt(len(s) > 0 && isToken, evCall("(*CodeWriter).commitMapping")), evOpt(len(s) > 0, evCall("isDigits")), evOpt(len(s) > 0 && cw.Mapper != nil, evCall("(*SourceMapper).AdvanceString"))) && implies(len(s) > 0 && isToken, callArg[byte]("(*CodeWriter).restoreSemi", 0, 1) == s[0]) && implies(len(s) > 0 && cw.Mapper != nil, callArg[string]("(*SourceMapper).AdvanceString", 0, 1) == s)
 //@   ensures [pendings] eq(cw.pendings, old(cw.pendings)) && cw.IndentLevel == old(cw.IndentLevel)
 //@   ensures [no-mapping@C08] implies(cw.Mapper != nil && !(isToken && len(s) > 0 && old(cw.deferred.set)), sourcemap.NumMappings(cw.Mapper) == old(sourcemap.NumMappings(cw.Mapper)))
 //@   ensures [recorded@C08] implies(cw.Mapper != nil && isToken && len(s) > 0 && old(cw.deferred.set), sourcemap.NumMappings(cw.Mapper) == old(sourcemap.NumMappings(cw.Mapper))+1 && pointsAt(cw, old(sourcemap.NumMappings(cw.Mapper)), old(cw.deferred)) && gposStr(startOf(cw, old(sourcemap.NumMappings(cw.Mapper))), s) == here(cw))
@@ -254,7 +263,7 @@ func asiHazard(c byte) bool { return c == '(' || c == '[' || c == '+' || c == '-
 //@ func (cw *CodeWriter) restoreSemi(next)
 //@   props C06 C03 C01 C08 C11
 //@   requires [cw] cw != nil && cwInv(cw) && J(cw) && NoFusion(cw)
-//@   modifies cw.Builder, cw.lastByte, cw.lastInt, cw.Mapper.generatedColumn
+//@   modifies cw.Builder, cw.lastByte, cw.prevByte, cw.lastInt, cw.Mapper.generatedColumn
 //@   ensures [cwinv] cwInv(cw)
 //@   ensures [J@C08] J(cw)
 //@   ensures [no-fusion@C03,C01,C14] NoFusion(cw)
@@ -272,12 +281,12 @@ func asiHazard(c byte) bool { return c == '(' || c == '[' || c == '+' || c == '-
 //@ func (cw *CodeWriter) separateSigns(next)
 //@   props C03 C01 C08 C06 C11
 //@   requires [cw] cw != nil && cwInv(cw) && J(cw) && NoFusion(cw)
-//@   modifies cw.Builder, cw.lastByte, cw.lastInt, cw.Mapper.generatedColumn
+//@   modifies cw.Builder, cw.lastByte, cw.prevByte, cw.lastInt, cw.Mapper.generatedColumn
 //@   ensures [cwinv] cwInv(cw)
 //@   ensures [J@C08] J(cw)
 //@   ensures [no-fusion@C03,C01,C14] NoFusion(cw)
-//@   ensures [separated@C03,C01] !((next == '+' || next == '-') && cw.lastByte == next) && !(next == '.' && cw.lastInt)
-//@   ensures [only-then@C06] implies(!((next == '+' || next == '-') && old(cw.lastByte) == next) && !(next == '.' && old(cw.lastInt)), eq(cw.Builder, old(cw.Builder)) && cw.lastByte == old(cw.lastByte) && cw.lastInt == old(cw.lastInt))
+//@   ensures [separated@C03,C01] !((next == '+' || next == '-') && cw.lastByte == next) && !(next == '.' && cw.lastInt) && !(next == '-' && cw.lastByte == '!' && cw.prevByte == '<')
+//@   ensures [only-then@C06] implies(!((next == '+' || next == '-') && old(cw.lastByte) == next) && !(next == '.' && old(cw.lastInt)) && !(next == '-' && old(cw.lastByte) == '!' && old(cw.prevByte) == '<'), eq(cw.Builder, old(cw.Builder)) && cw.lastByte == old(cw.lastByte) && cw.lastInt == old(cw.lastInt) && cw.prevByte == old(cw.prevByte))
 //@   ensures [no-mapping@C08] cw.Mapper == nil || sourcemap.NumMappings(cw.Mapper) == old(sourcemap.NumMappings(cw.Mapper))
 
 //@ func (cw *CodeWriter) clearPending()
@@ -317,9 +326,9 @@ func asiHazard(c byte) bool { return c == '(' || c == '[' || c == '+' || c == '-
 
 // WriteString = flush the deferred layout, then the text (both through emit, which advances the mapper).
 //@ func (cw *CodeWriter) WriteString(s)
-//@   props C06 C08 C15 C01 C11
+//@   props C06 C08 C15 C01 C11 C03 C14
 //@   use cwFrame
-//@   ensures [mechanism@C06,C08] fullSeq(evCall("(*CodeWriter).flushPending"), evCall("(*CodeWriter).write")) && callArg[string]("(*CodeWriter).write", 0, 1) == s && callArg[bool]("(*CodeWriter).write", 0, 2)
+//@   ensures [mechanism@C06,C08,C15,C03,C01] fullSeq(evCall("(*CodeWriter).flushPending"), evCall("(*CodeWriter).write")) && callArg[string]("(*CodeWriter).write", 0, 1) == s && callArg[bool]("(*CodeWriter).write", 0, 2)
 //@   ensures [flushed] len(cw.pendings) == 0 && cw.IndentLevel == old(cw.IndentLevel)
 //@   ensures [no-mapping@C08] implies(cw.Mapper != nil && !(len(s) > 0 && old(cw.deferred.set)), sourcemap.NumMappings(cw.Mapper) == old(sourcemap.NumMappings(cw.Mapper)))
 //@   ensures [recorded@C08] implies(cw.Mapper != nil && len(s) > 0 && old(cw.deferred.set), sourcemap.NumMappings(cw.Mapper) == old(sourcemap.NumMappings(cw.Mapper))+1 && pointsAt(cw, old(sourcemap.NumMappings(cw.Mapper)), old(cw.deferred)) && gposStr(startOf(cw, old(sourcemap.NumMappings(cw.Mapper))), s) == here(cw))
@@ -328,9 +337,9 @@ func asiHazard(c byte) bool { return c == '(' || c == '[' || c == '+' || c == '-
 // WriteRune is used for single ASCII characters other than carriage return.
 // WriteRune = flush the deferred layout, then the character; the mapper advances by one column or one line.
 //@ func (cw *CodeWriter) WriteRune(r)
-//@   props C06 C08 C15 C01 C11
+//@   props C06 C08 C15 C01 C11 C03 C14
 //@   use cwFrame
-//@   ensures [mechanism@C06,C08] fullSeq(evCall("(*CodeWriter).flushPending"), evCall("(*CodeWriter).restoreSemi"), evCall("(*CodeWriter).separateSigns"), evCall("(*CodeWriter).commitMapping"), evOpt(cw.Mapper != nil && r == '\n', evCall("(*SourceMapper).AdvanceLine")), evOpt(cw.Mapper != nil && r != '\n', evCall("(*SourceMapper).AdvanceColumn")))
+//@   ensures [mechanism@C06,C08,C15,C03,C01] fullSeq(evCall("(*CodeWriter).flushPending"), evCall("(*CodeWriter).restoreSemi"), evCall("(*CodeWriter).separateSigns"), evCall("(*CodeWriter).commitMapping"), evOpt(cw.Mapper != nil && r == '\n', evCall("(*SourceMapper).AdvanceLine")), evOpt(cw.Mapper != nil && r != '\n', evCall("(*SourceMapper).AdvanceColumn")))
 //@   ensures [column@C08] implies(cw.Mapper != nil && r != '\n', callArg[int]("(*SourceMapper).AdvanceColumn", 0, 1) == 1)
 //@   ensures [asi@C06] callArg[byte]("(*CodeWriter).restoreSemi", 0, 1) == byte(r)
 //@   ensures [written@C06] !cw.semiOmitted
